@@ -123,6 +123,12 @@ Currents(c) ==
   LET T == Thresholds(c)
       edge == IF IsFuse(c) THEN {SetMin(T), SetMax(T)} ELSE T      \* interior support points of a fuse: the point itself
   IN T \cup {t - 1 : t \in edge} \cup {t + 1 : t \in edge} \cup Mids(T) \cup {Far(c)}
+(* one representative current per stage (the lowest enumerated level that the stage answers): enough for the life-   *)
+(* cycle histories, whose outcome depends on the current only through the stage                                      *)
+Reps(c) == LET Cs == Currents(c)
+               reg == [I \in Cs |-> Region(c, I)]
+           IN {SetMin({I \in Cs : reg[I] = r}) : r \in {reg[I] : I \in Cs}}
+Probes(c, mode) == IF mode = "all" THEN Currents(c) ELSE Reps(c)
 (* what the harness writes into every OTHER cell (the other switch's row, the table of the other scenario): a        *)
 (* current on the opposite side of the pick-up, so that reading the wrong cell flips the decision                     *)
 Decoy(c, I) == IF Trip(c, I) THEN Pickup(c) - 3 ELSE Far(c) + 5
@@ -136,7 +142,7 @@ OpReset == [op |-> "reset", I |-> 0, J |-> 0]
 OpApply == [op |-> "apply", I |-> 0, J |-> 0]
 OpDescribe == [op |-> "describe", I |-> 0, J |-> 0]
 OpEval(c, I) == [op |-> "eval", I |-> I, J |-> Decoy(c, I)]
-Ops(c) == {OpReset, OpApply, OpDescribe} \cup {OpEval(c, I) : I \in Currents(c)}
+Ops(c, mode) == {OpReset, OpApply, OpDescribe} \cup {OpEval(c, I) : I \in Probes(c, mode)}
 Step(c, s, a) ==
   CASE a.op = "reset"    -> [s EXCEPT !.tripped = FALSE]                       \* fuse.py:80, ocrelay.py:188
     [] a.op = "eval"     -> [s EXCEPT !.tripped = Trip(c, a.I)]                \* every branch of protection_function sets the flag
